@@ -1,6 +1,6 @@
 (* C06 - Functions and scopes: locals stay local, everything else is global. *)
 From Coq Require Import Floats.
-From EF Require Import Model.Base Model.Code Model.Value Model.Env Model.Reflect Model.Builtins Model.Compiler
+From EF Require Import Model.Base Gen.Tables Model.Code Model.Value Model.Env Model.Reflect Model.Builtins Model.Compiler
                        Model.VM Model.Api Proofs.EnvProofs Proofs.CallProofs.
 Open Scope N_scope.
 
@@ -71,8 +71,9 @@ Theorem C06_call_frame :
   stk m = VStr name :: rev args ++ s -> lenN args = n ->
   fn_get name fns = None -> ufunc_get name funcs = Some uf ->
   List.length (fparams uf) = List.length args ->
+  (Gen.Tables.max_call_depth = 0 \/ N.of_nat (env_depth (menv m)) < Gen.Tables.max_call_depth) ->
   let callee := exec o consts funcs fns obj k (fcode uf) 0
-                  (mkM [] (declare_all (env_push (menv m)) (fparams uf) args) (trace m) (polls m)) in
+                  (mkM [] (declare_all (env_push_frame (menv m)) (fparams uf) args) (trace m) (polls m)) in
   match callee with
   | (ODone out, m2) =>
       exec o consts funcs fns obj (S k) code ip m =
@@ -84,3 +85,25 @@ Theorem C06_call_frame :
       (OErr x, mkM s (env_truncate (menv m2) (env_depth (menv m))) (trace m2) (polls m2))
   end.
 Proof. exact CallProofs.call_frame. Qed.
+
+(* the scope of a call hides the callers' locals: a name read in a fresh call frame comes from the globals *)
+Theorem C06_frame_hides_callers : forall e n,
+  env_get (env_push_frame e) n = assoc_get n (globals e).
+Proof. exact EnvProofs.frame_hides_callers. Qed.
+
+(* an assignment in a fresh call frame binds a global and leaves every scope as it was *)
+Theorem C06_assignment_in_callee_is_global : forall e n v,
+  env_set (env_push_frame e) n v =
+  mkEnv (assoc_set n v (globals e)) (scopes (env_push_frame e)).
+Proof. exact EnvProofs.assignment_in_callee_is_global. Qed.
+
+(* calls nested too deeply are a run-time error *)
+Theorem C06_too_deep_is_error :
+  forall o consts funcs fns obj code ip m name n args s k uf,
+  byte_at code ip = Some OpCall -> operand_at code ip = Some n -> ip < lenN code -> polls m = None ->
+  stk m = VStr name :: rev args ++ s -> lenN args = n ->
+  fn_get name fns = None -> ufunc_get name funcs = Some uf ->
+  List.length (fparams uf) = List.length args ->
+  Gen.Tables.max_call_depth <> 0 -> Gen.Tables.max_call_depth <= N.of_nat (env_depth (menv m)) ->
+  exists m', exec o consts funcs fns obj (S k) code ip m = (OErr EScript, m').
+Proof. exact CallProofs.too_deep_is_error. Qed.
